@@ -290,6 +290,8 @@ func (r *messageSetReader) readMessageV2(_ int64, key readBytesFunc, val readByt
 				return
 			}
 			r.remain -= batchRemain - int(limitReader.N)
+			// The records are accounted for by their uncompressed size.
+			r.lengthRemain = r.decompressed.Len()
 			r.readerStack = &readerStack{
 				reader: bufio.NewReaderSize(r.decompressed, 0), // the new stack reads from the decompressed buffer
 				remain: r.decompressed.Len(),
